@@ -724,7 +724,9 @@ fn emit_item(
             let (s, e) = br(f.span());
             rewrite::attr_edits(&f.attrs, src, &mut edits, &mut rewrites);
             rewrite::vis_edit(&f.vis, br(f.sig.span()).0, &mut edits, &mut rewrites);
-            rewrite::drop_print_stmts(&f.block, src, &mut edits, &mut rewrites);
+            if spec.mode != "trusted" {
+                rewrite::drop_print_stmts(&f.block, src, &mut edits, &mut rewrites);
+            }
             fn_edits(spec, src, &f.sig, &f.block, &mut edits, &mut rewrites, true);
             let mut pre = String::new();
             for a in &spec.attrs {
@@ -927,7 +929,11 @@ fn fn_edits(
                 rewrites.push(format!("R6 closure {} parameter `{}` typed `{}`", n, pat, types[i]));
             } else {
                 edits.push(Edit { start: *ps, end: *pe, text: format!("p{}: {}", i, types[i]), kind: "R6 closure param".into(), prio: 0 });
-                let _ = write!(lets, "let {} = p{}; ", pat, i);
+                match &cl.deref_names[i] {
+                    // `|&v|` : Verus has no reference patterns; `let v = *p;` is the same binding for Copy items
+                    Some(name) => { let _ = write!(lets, "let {} = *p{}; ", name, i); }
+                    None => { let _ = write!(lets, "let {} = p{}; ", pat, i); }
+                }
                 rewrites.push(format!("R6 closure {} parameter pattern `{}` -> `p{}: {}` + let", n, pat, i, types[i]));
             }
         }
